@@ -82,6 +82,55 @@ def cases(rng, which, count):
                 if rng.random() < 0.4:
                     fl.append(rng.choice(["-r", "--reverse"]))
                 yield Case("cli_lib", [st, "subseq"] + fl, True, "cli-subseq-general")
+            elif w == "split":
+                # `split --partition`: a partition file (RAxML style) covering the sites with 1-4 partitions given as
+                # runs, single sites and strided ranges; sometimes a site is left out, given twice or beyond the end
+                k = rng.choice([1, 2, 2, 2, 3, 3, 4])
+                pnames = rng.sample(["p1", "p2", "geneA", "x_2", "cds", "third", "P.b"], k)
+                items = []        # (partition, interval text)
+                if rng.random() < 0.3 and L >= 3:
+                    k = 3
+                    pnames = rng.sample(["pos1", "pos2", "pos3", "c1", "c2", "c3"], 3)
+                    items = [(pnames[i], "%d-%d/3" % (i + 1, L)) for i in range(3)]
+                else:
+                    j = 0
+                    while j < L:
+                        e = min(L, j + rng.randint(1, max(1, L // 3)))
+                        pn = pnames[len(items)] if len(items) < k else rng.choice(pnames)
+                        if e - j == 1:
+                            items.append((pn, str(j + 1)))
+                        elif e - j >= 4 and rng.random() < 0.3:
+                            other = rng.choice(pnames)
+                            items.append((pn, "%d-%d/2" % (j + 1, e)))
+                            items.append((other, "%d-%d/2" % (j + 2, e)))
+                        else:
+                            items.append((pn, "%d-%d" % (j + 1, e)))
+                        j = e
+                q = rng.random()
+                if q < 0.1 and len(items) > 1:
+                    items.pop(rng.randrange(len(items)))                       # a site in no partition
+                elif q < 0.2:
+                    items.append((rng.choice(pnames), rng.choice(items)[1]))   # a site in two partitions
+                elif q < 0.25:
+                    items.append((rng.choice(pnames), "%d-%d" % (L, L + 1)))    # beyond the alignment
+                if rng.random() < 0.5:
+                    rng.shuffle(items)
+                lines = []      # one line per partition, or one per interval
+                if rng.random() < 0.7:
+                    seen = []
+                    for pn, _ in items:
+                        if pn not in seen:
+                            seen.append(pn)
+                    for pn in seen:
+                        lines.append((pn, [t for q2, t in items if q2 == pn]))
+                else:
+                    lines = [(pn, [t]) for pn, t in items]
+                sp = rng.choice(["", " "])
+                txt = "".join("%s,%s%s%s=%s%s|" % (rng.choice(["DNA", "GTR", "M1"]), sp, pn, sp, sp, ("," + sp).join(ts)) for pn, ts in lines)
+                fl = ["--partition", "part.txt"]
+                if rng.random() < 0.6:
+                    fl = rng.choice([fl + ["-o", rng.choice(["out_", "x."])], ["-o", "o"] + fl])
+                yield Case("cli_libf", [st, "part.txt=" + txt, "split"] + fl, True, "cli-split")
             elif w == "consensus":
                 fl = [f for f in ("--ignore-gaps", "--ignore-n") if rng.random() < 0.4]
                 yield Case("cli_lib", [st, "consensus"] + fl, True, "cli-consensus")
